@@ -11,10 +11,11 @@ from vlib.gen import graphs as H
 
 PID = "C10"
 TITLE = "Spanning trees and forests span, are acyclic, and respect exclusions"
-LEAN_MODULES = ["Mouette.Props.C10", "Mouette.Props.C10Kruskal"]
+LEAN_MODULES = ["Mouette.Props.C10", "Mouette.Props.C10Kruskal", "Mouette.Props.C10KruskalMin", "Mouette.Props.C10Orient"]
 REQUIRED_THEOREMS = ["bfs_terminates", "parent_children_consistent", "tree_edges_are_adjacencies", "edge_count",
                      "reached_eq_component", "bfs_min_hops", "traverse_once_parent_first", "forest_one_tree_per_component",
-                     "kruskal_spanning_forest"]
+                     "kruskal_spanning_forest", "kruskal_sort_sorted", "kruskal_minimum", "orient_spec", "kruskal_forest",
+                     "mst_orientation"]
 TRUSTED = [
     "Lean 4.33.0 kernel; axioms ⊆ {propext, Classical.choice, Quot.sound}",
     "hand-written model Mouette/Model/Trees.lean (BFS with (parent,child) queue and seen flags, children/edges loop, traverse, "
@@ -25,8 +26,8 @@ TRUSTED = [
     "random.randint patched for default roots",
 ]
 ASSUMPTIONS = ["agreement model/implementation only on the cases of this run",
-               "Kruskal: spanning forest is a theorem (kruskal_spanning_forest, on top of the C20 union-find refinement lemmas); minimality "
-               "(cut property) and the orientation of the root's component are oracle/correspondence-checked, not theorems",
+               "Kruskal: spanning forest, minimality (kruskal_minimum, exchange bound of the graphic matroid by component counting) and "
+               "the orientation of the root's component (mst_orientation) are theorems on top of the C20 union-find refinement lemmas",
                "forest theorem assumes an undirected admissible adjacency (checked by the driver on every input: field H)"]
 RULE = ("random polylines / manifold surfaces / tet meshes (incl. disconnected), every tree class, explicit and default (patched random) "
         "roots, random exclusion sets (edge pairs / face triples, 0-40% of the connectors), avoid_boundary on/off, MST weights "
@@ -485,10 +486,11 @@ MANIFEST = {
                    "every element is its minimum hop distance; traverse() in both orders terminates and visits every reached element exactly "
                    "once, parents before children; a forest over an undirected adjacency has exactly one tree per connected component and covers "
                    "every element once; the Kruskal loop on the C20 union-find model selects a spanning forest of the admissible edges (no cycle, "
-                   "same connectivity). Kruskal and its orientation are compared exactly with the code; minimality of the Kruskal edge list and "
-                   "the orientation tables are checked by the oracle (independent exact Kruskal, components), not proved."),
+                   "same connectivity) of minimum total weight among ALL spanning forests of the admissible edges, and the orientation loop (no seen "
+                   "flags) terminates on it and orients exactly the root's component. Kruskal and its orientation are also compared exactly "
+                   "with the code and checked by the oracle (independent exact Kruskal, components)."),
     "level_note": ("Trusted: Lean kernel + propext/Classical.choice/Quot.sound; the hand-written model (tied to the code by exact comparison "
                    "of parent/children/edge tables and traversal sequences on the cases of each run); adjacency read from the implementation's "
-                   "connectivity; random.randint patched. kruskal_spanning_forest depends on lean-c20's Lemmas/UnionFind.lean; kruskal_minimum / mst_orientation are not proved (oracle + exact correspondence only)."),
+                   "connectivity; random.randint patched. the Kruskal theorems depend on lean-c20's Lemmas/UnionFind.lean (refinement of the union-find model)."),
     "technique": "Lean 4 invariant proof over an executable model of the BFS loops and traversals; exact differential correspondence + structural oracle",
 }
